@@ -129,7 +129,7 @@ class Template:
                         ) from err
                     raise
                 except LiquidError as err:
-                    if not err.template_name:
+                    if not err.template_name and err.is_located_in(node.token):
                         err.template_name = self.full_name()
                     raise
 
@@ -163,7 +163,7 @@ class Template:
                         ) from err
                     raise
                 except LiquidError as err:
-                    if not err.template_name:
+                    if not err.template_name and err.is_located_in(node.token):
                         err.template_name = self.full_name()
                     raise
 
